@@ -141,3 +141,21 @@ PROPS["C12"] = dict(
     technique="Lean 4 proof of the mask algebra over the extracted enums + exhaustive exact correspondence of written sets",
     assumptions=["value independence is checked on the implementation (bit equality), not derived from a dataflow model"],
 )
+
+PROPS["C07"] = dict(
+    harnesses=[dict(name="C07", procs_quick=2, procs_thorough=16)],
+    rule=("ellipsoids f ∈ {WGS84, 0, ±0.5, 0.99, 0.1, −0.01, 1/297}; forward: all latitudes incl. poles, heights −a/2 … 1e20; reverse: |r| from 1e-20 to "
+          "1e300 by decades, the rotation axis, the equatorial plane, inside the singular disc (Z = 0, ±denormal, ±1e-9…1), the rim R = a·e² ± 0..40 ulp, "
+          "prolate singular segment ends ± ulps, the _maxrad switch-over; LocalCartesian origins incl. poles. non-trivial = finite result; distinct = "
+          "distinct (op, leading argument bits)"),
+    tolerances={"Forward vs closed form (long double)": "4 ulp of |h|+a", "Reverse closure": "16·1.2e-16·max(|r|, a)/(1−f)", "forward-then-reverse": "30 nm for |h| < 1e7 m",
+                "model vs impl": "1e-15 relative (forward), 1e-9 relative (reverse: model hypot/atan2d differ in the last bits)", "rotation": "8e-16"},
+    level_text=("Theorems over ℝ about the formula models that the driver evaluates in binary64 against the implementation: the rotation matrix is "
+                "orthonormal with determinant +1, its columns are east/north/up; the forward point lies on the ellipsoid for h = 0 and is displaced by h "
+                "along the normal; LocalCartesian is a rigid motion (origin ↦ 0, distances preserved, reverse∘forward = id). The full reverse algorithm "
+                "(all branches incl. the singular disc) is modelled and run against the implementation; closure, ranges, forward-then-reverse, "
+                "orthonormality and isometry are oracles on the implementation. Partial: no theorem that the Vermeille branch inverts forward."),
+    level_note="hand-written polymorphic model (RealLike) of Geocentric.cpp / LocalCartesian.cpp; sincosd/atan2d are kernels; native Float hypot is emulated",
+    technique="Lean 4 proofs over ℝ of the closed-form model (ring / linear_combination / field_simp) + binary64 execution of the same definitions against the implementation",
+    assumptions=["libm kernels (cbrt, atan2, cos, hypot) agree between Lean's Float and C++ to a few ulp"],
+)
